@@ -18,7 +18,7 @@ import cexpr
 import creader
 import c01_odegen as O
 
-MASS = {"H": 1, "D": 2, "He": 4, "C": 12, "N": 14, "O": 16, "S": 32, "Si": 28}
+MASS = {"H": 1, "D": 2, "He": 4, "C": 12, "N": 14, "O": 16, "S": 32, "Si": 28, "Cl": 35, "Mg": 24}
 
 
 def species_mass(name):
@@ -261,9 +261,13 @@ def main(ctx: Ctx) -> int:
         ({"reactions": [(["H", "H"], ["H2"]), (["H2", "H+"], ["H3+"]), (["CH", "H"], ["C", "H2"]), (["OH", "H"], ["O", "H2"]), (["H2O", "H"], ["OH", "H2"]),
                         (["CH2", "H"], ["CH", "H2"]), (["H2+", "H2"], ["H3+", "H"]), (["CH+", "H"], ["C+", "H2"]), (["CO", "H3+"], ["HCO+", "H2"])],
           "required": []}, "many-carriers"),
+        # elements whose atomic WEIGHT is far from a whole number (Cl 35.45, Mg 24.305): the mass number of a molecule is the SUM of the
+        # mass numbers of its atoms (Cl2 70, MgCl 59), not its rounded weight (71, 60)
+        ({"reactions": [(["H", "Cl"], ["HCl"]), (["Cl", "Cl"], ["Cl2"]), (["Mg", "Cl"], ["MgCl"]), (["H", "H"], ["H2"])], "required": []}, "fractional-weights"),
     ]
     randoms = [gen_network(rng) for _ in range(nstat)]
-    O.POOL.update({"GRAIN0": ({"GRAIN": 1}, 0), "GRAIN0-": ({"GRAIN": 1}, -1), "CN": ({"C": 1, "N": 1}, 0), "HCN": ({"H": 1, "C": 1, "N": 1}, 0)})
+    O.POOL.update({"GRAIN0": ({"GRAIN": 1}, 0), "GRAIN0-": ({"GRAIN": 1}, -1), "CN": ({"C": 1, "N": 1}, 0), "HCN": ({"H": 1, "C": 1, "N": 1}, 0),
+                   "Cl": ({"Cl": 1}, 0), "Cl2": ({"Cl": 2}, 0), "HCl": ({"H": 1, "Cl": 1}, 0), "Mg": ({"Mg": 1}, 0), "MgCl": ({"Mg": 1, "Cl": 1}, 0)})
     for k in range(nstat + len(special)):
         desc, kind = (randoms[k], "random") if k < nstat else special[k - nstat]
         desc["kind"] = kind
@@ -274,7 +278,7 @@ def main(ctx: Ctx) -> int:
         except Exception as e:   # noqa
             ctx.violation(f"C16|Render|{type(e).__name__}|{kind}", f"{type(e).__name__}: {e}", {"desc": desc})
             continue
-        if k < ndyn or kind in ("grain", "hydrogen-early", "many-carriers", "deuterated"):
+        if k < ndyn or kind in ("grain", "hydrogen-early", "many-carriers", "deuterated", "fractional-weights"):
             try:
                 traces += dynamic_traces(ctx, len(traces) + 1, desc, net, k, rng)
             except MachineryError:
@@ -326,6 +330,6 @@ def main(ctx: Ctx) -> int:
     cov["rule"] = "random balanced real-species networks with every element's atom present (+ a grain network and a network lacking an atom)"
     cov["exhaustive"] = False
     return finish(ctx, "model_checking", cov, [
-        "species compositions and mass numbers are the intended ones of the pool (H 1, D 2, He 4, C 12, N 14, O 16)",
+        "species compositions and mass numbers are the intended ones of the pool (H 1, D 2, He 4, C 12, N 14, O 16, Mg 24, Si 28, S 32, Cl 35)",
         "the dense solve is the stand-in's LU with partial pivoting; ratios compared to 1e-9 relative",
     ])
